@@ -68,6 +68,8 @@ pub struct Mon {
     pub odd_reply: u32,
     pub deadline_cross: u32,
     pub immediate_while_registered: u32,
+    /// which links were connected when the last housekeeping pass counted them
+    connected_at_pass: Vec<bool>,
 }
 
 impl Mon {
@@ -83,12 +85,19 @@ impl Mon {
             odd_reply: 0,
             deadline_cross: 0,
             immediate_while_registered: 0,
+            connected_at_pass: Vec::new(),
         }
+    }
+
+    /// A housekeeping pass counted the connected links.
+    pub fn note_pass(&mut self, connected: Vec<bool>) {
+        self.connected_at_pass = connected;
     }
 
     /// A REG1 frame left on `link`. `at_tick`: emitted by a housekeeping pass;
     /// `any_connected`: some uplink is connected right now.
-    pub fn on_reg1(&mut self, link: u8, bytes: &[u8], now: u64, at_tick: bool, any_connected: bool, step: usize) -> CheckResult {
+    pub fn on_reg1(&mut self, link: u8, bytes: &[u8], now: u64, at_tick: bool, connected_now: &[bool], step: usize) -> CheckResult {
+        let any_connected = connected_now.iter().any(|c| *c);
         vensure!(bytes.len() == 258 && rc::packet_type(bytes) == Some(rc::T_REG1), "reg1-frame", "step {step}: malformed REG1 of {} bytes", bytes.len());
         vensure!(bytes[2..] == self.adopted[..], "reg1-stale-id", "step {step}: REG1 on link {link} does not carry the currently adopted id");
         if let Some((l, at)) = self.outstanding
@@ -100,7 +109,12 @@ impl Mon {
             return crate::rt::viol("driver-reg1-while-registered", format!("step {step}: the registration driver emitted REG1 on link {link} while an uplink is connected"));
         }
         if !at_tick && any_connected {
-            // immediate answer to REG_NGP computed from the driver's last tick count: counted, not asserted
+            // immediate answer to REG_NGP, decided on the driver's link count from its last pass. A link that came up
+            // since that pass is not in the count yet: counted, not asserted. A link that was connected at that pass
+            // and still is was counted: then the REG1 is the driver emitting REG1 while an uplink is registered.
+            if let Some(i) = (0..connected_now.len()).find(|i| connected_now[*i] && self.connected_at_pass.get(*i).copied().unwrap_or(false)) {
+                return crate::rt::viol("immediate-reg1-while-registered", format!("step {step}: REG_NGP on link {link} was answered with a REG1 although link {i} has been connected since before the last housekeeping pass"));
+            }
             self.immediate_while_registered += 1;
         }
         self.outstanding = Some((link, now));
@@ -224,7 +238,7 @@ pub fn check_pure(case: &Case, obs: &mut Obs) -> CheckResult {
     let mut mon = Mon::new(*reg.srtla_id());
     let mut k = 0u32;
     for (step, s) in case.syms.iter().enumerate() {
-        let any_connected = conns.iter().any(|c| c.connected);
+        let _ = &conns;
         match *s {
             Sym::Advance(d) => now += d as u64,
             Sym::Tick => {
@@ -234,7 +248,7 @@ pub fn check_pure(case: &Case, obs: &mut Obs) -> CheckResult {
                 let sends = reg.reg_driver_pending_sends(n, now);
                 let mut emitted = false;
                 if let Some((idx, pkt)) = sends.reg1 {
-                    mon.on_reg1(idx as u8, &pkt, now, true, conns.iter().any(|c| c.connected), step)?;
+                    mon.on_reg1(idx as u8, &pkt, now, true, &conns.iter().map(|c| c.connected).collect::<Vec<_>>(), step)?;
                     emitted = true;
                 }
                 if let Some(pkt) = sends.broadcast_reg2 {
@@ -242,6 +256,7 @@ pub fn check_pure(case: &Case, obs: &mut Obs) -> CheckResult {
                         mon.on_reg2_out(l as u8, &pkt, step)?;
                     }
                 }
+                mon.note_pass(conns.iter().map(|c| c.connected).collect());
                 mon.on_tick_end(cleared, reg.pending_reg2_idx(), sends.broadcast_reg2.is_some(), emitted, step)?;
             }
             Sym::Ngp(l) | Sym::Reg2Good(l) | Sym::Reg2Short(l, _) | Sym::Reg3(l) | Sym::RegErr(l) => {
@@ -268,7 +283,7 @@ pub fn check_pure(case: &Case, obs: &mut Obs) -> CheckResult {
                     Some(RegistrationEvent::RegNgp) => {
                         mon.on_ngp(l);
                         if let Some(pkt) = reg.reg1_if_ngp_immediate(l as usize, now) {
-                            mon.on_reg1(l, &pkt, now, false, any_connected, step)?;
+                            mon.on_reg1(l, &pkt, now, false, &conns.iter().map(|c| c.connected).collect::<Vec<_>>(), step)?;
                         }
                     }
                     Some(RegistrationEvent::Reg2) => mon.on_reg2_in(l, &bytes, reg.srtla_id(), step)?,
@@ -435,13 +450,14 @@ pub fn check_shell(case: &Case, obs: &mut Obs) -> CheckResult {
                 let cleared = mon.on_tick(now);
                 sh.housekeeping_core();
                 let wire = sh.drain_wire();
-                let any_connected = sh.st.conns.iter().any(|c| c.connected);
+                // (as before: the connectivity after the pass, which is what the driver counted in it)
+                let connected_before_pass: Vec<bool> = sh.st.conns.iter().map(|c| c.connected).collect();
                 let mut reg1_emitted = false;
                 let mut reg2_links: Vec<u8> = Vec::new();
                 for e in &wire {
                     match rc::packet_type(&e.bytes) {
                         Some(rc::T_REG1) => {
-                            mon.on_reg1(e.addr, &e.bytes, now, true, any_connected, step)?;
+                            mon.on_reg1(e.addr, &e.bytes, now, true, &connected_before_pass, step)?;
                             reg1_emitted = true;
                         }
                         Some(rc::T_REG2) => {
@@ -465,6 +481,7 @@ pub fn check_shell(case: &Case, obs: &mut Obs) -> CheckResult {
                         vensure!(cnt <= reconnect_max, "second-broadcast", "step {step}: link {l} got {cnt} REG2 frame(s) in a pass with no newly accepted REG2 (timed out before the pass: {})", timed_out[l as usize]);
                     }
                 }
+                mon.note_pass(sh.st.conns.iter().map(|c| c.connected).collect());
                 mon.on_tick_end(cleared, sh.st.reg.pending_reg2_idx(), broadcast, reg1_emitted, step)?;
             }
             Sym::Ngp(l) | Sym::Reg2Good(l) | Sym::Reg2Short(l, _) | Sym::Reg3(l) | Sym::RegErr(l) => {
@@ -472,7 +489,7 @@ pub fn check_shell(case: &Case, obs: &mut Obs) -> CheckResult {
                     continue;
                 }
                 let now = sh.now();
-                let any_connected = sh.st.conns.iter().any(|c| c.connected);
+                let connected_before: Vec<bool> = sh.st.conns.iter().map(|c| c.connected).collect();
                 let bytes: Vec<u8> = match *s {
                     Sym::Ngp(_) => vec![0x92, 0x11],
                     Sym::Reg2Good(_) => {
@@ -500,7 +517,7 @@ pub fn check_shell(case: &Case, obs: &mut Obs) -> CheckResult {
                     match rc::packet_type(&e.bytes) {
                         Some(rc::T_REG1) => {
                             vensure!(matches!(*s, Sym::Ngp(_)) && e.addr == l, "reg1-unprovoked", "step {step}: REG1 on link {} in response to {:?}", e.addr, s);
-                            mon.on_reg1(e.addr, &e.bytes, now, false, any_connected, step)?;
+                            mon.on_reg1(e.addr, &e.bytes, now, false, &connected_before, step)?;
                         }
                         Some(rc::T_REG2) => return crate::rt::viol("reg2-unprovoked", format!("step {step}: REG2 emitted outside a housekeeping pass in response to {:?}", s)),
                         _ => {}
